@@ -197,9 +197,44 @@ theorem openssh_padding_correct (bs : Nat) (data : Bytes) (h1 : 1 ≤ bs) (h2 : 
   addPadding_spec bs data h1 h2
 
 def opensshExampleKey : OpensshKey :=
-  { alg := strBytes "ssh-ed25519", fields := [[1, 2, 3], [4, 5]], comment := [0xff, 10, 0, 32], pub := [9, 9] }
+  { alg := strBytes "ssh-ed25519", fields := [[1, 2, 3], [4, 5]], comment := [0xff, 10, 7, 32], pub := [9, 9] }
 
-/-- non-vacuity: an ed25519-shaped key with an arbitrary-bytes comment, block size 8 -/
+/-- the same key with a NUL inside its comment -/
+def opensshNulCommentKey : OpensshKey := { opensshExampleKey with comment := [0x61, 0, 0x62] }
+
+/-- **The exporter reports failure for a comment OpenSSH cannot load**: since the repair,
+    `export_private_key('openssh')` raises `KeyExportError` for a comment that contains a NUL, whatever the
+    cipher (the flag is probed on the tree under check, so this theorem stops building if the refusal
+    disappears). -/
+theorem openssh_export_refuses_nul_comment (c : Cipher) (check : Nat) (k : OpensshKey) (h : (0 : UInt8) ∈ k.comment) :
+    encodeOpenssh? c check k = none := by
+  have hflag : Gen.C15.exportRefusesNulComment = true := rfl
+  apply encodeOpenssh?_refused
+  simp [commentRefused, hflag, h]
+
+/-- **Every comment the exporter writes is one OpenSSH can load** (`sshbuf_get_cstring`: no NUL except
+    possibly as the last byte), and the file then reads back with exactly that comment
+    (`openssh_container_roundtrip`). -/
+theorem openssh_exported_comment_is_cstring (c : Cipher) (check : Nat) (k : OpensshKey) (w : Bytes)
+    (henc : encodeOpenssh? c check k = some w) : cstringOk k.comment = true := by
+  have hflag : Gen.C15.exportRefusesNulComment = true := rfl
+  have h := not_refused_of_encodeOpenssh? henc
+  apply cstringOk_of_no_nul
+  simpa [commentRefused, hflag] using h
+
+/-- Behaviour BEFORE the repair, machine-checked witness: the unchecked writer produced a file for the comment
+    `a\0b`, which asyncssh's reader accepts with that comment, although it is not a C string — OpenSSH cannot
+    load such a file (oracle signature `interop:ssh-keygen-rejects:openssh:nul-in-comment`).  The repaired
+    writer refuses it. -/
+theorem openssh_prefix_wrote_nul_comment :
+    (encodeOpensshPreFix? noCipher 0xdeadbeef opensshNulCommentKey).map (decodeOpenssh none) =
+      some (.ok opensshNulCommentKey) ∧
+    cstringOk opensshNulCommentKey.comment = false ∧
+    encodeOpenssh? noCipher 0xdeadbeef opensshNulCommentKey = none := by
+  refine ⟨by decide +kernel, by decide +kernel, ?_⟩
+  exact openssh_export_refuses_nul_comment _ _ _ (by decide)
+
+/-- non-vacuity: an ed25519-shaped key with a comment of arbitrary non-NUL bytes, block size 8 -/
 theorem openssh_container_example :
     (encodeOpenssh? noCipher 0xdeadbeef opensshExampleKey).map (decodeOpenssh none) =
       some (.ok opensshExampleKey) := by
